@@ -367,6 +367,10 @@ func updateConfigFile() {
 		value := slip.UserPkg.JustGet(key)
 		p := *slip.DefaultPrinter()
 		p.Readably = true
+		// The file is read with the default *read-base* of 10 so values
+		// must not be written in the user's *print-base*.
+		p.Base = 10
+		p.Radix = false
 		b = fmt.Appendf(b, "(setq %s ", key)
 		if list, ok := value.(slip.List); ok && 0 < len(list) {
 			b = append(b, '\'')
